@@ -1,12 +1,16 @@
 #!/bin/bash
-# eval_mutant.sh <patch.diff> <tier> <prop>... : apply to /repo, run the checks, undo.
+# eval_mutant.sh <patch.diff> <tier> <prop>... : apply to a scratch worktree of /repo's HEAD, run the
+# checks against it (VERIF_REPO), remove it. /repo and /verif/evidence are not touched, so it is safe
+# while other checks are running against /repo.
 P=$1; TIER=$2; shift 2
-cd /repo && git diff --quiet || { echo "/repo not clean"; exit 2; }
-git -C /repo apply "$P" || exit 2
-trap 'git -C /repo checkout -- . ; rm -rf "$OUT"' EXIT
-OUT=$(mktemp -d /tmp/evalout.XXXXXX)   # evidence and replays of a mutant run never land in /verif
+WT=$(mktemp -d /tmp/evalwt.XXXXXX); rmdir "$WT"
+OUT=$(mktemp -d /tmp/evalout.XXXXXX)
+git -C /repo worktree add -q --detach "$WT" HEAD || exit 2
+trap 'git -C /repo worktree remove --force "$WT" 2>/dev/null; rm -rf "$WT" "$OUT"' EXIT
+git -C "$WT" apply "$P" || exit 2
 for prop in "$@"; do
-  out=$(cd /verif && VERIF_OUT_DIR=$OUT ./check $prop --tier $TIER 2>&1); rc=$?
+  out=$(cd /verif && VERIF_REPO=$WT VERIF_OUT_DIR=$OUT ./check $prop --tier $TIER 2>&1); rc=$?
   v=$(echo "$out" | grep -c '^VIOLATION')
   echo "EVAL $prop tier=$TIER exit=$rc violations=$v :: $(echo "$out" | grep -m1 'reason:' | cut -c1-220)"
+  [ $rc -ge 2 ] && echo "$out" | tail -5
 done
